@@ -1,7 +1,7 @@
 (* C08 — Configuration queries always reflect the latest updates.  Property theorems only. *)
-From Coq Require Import String Ascii List Bool ZArith Arith.
+From Coq Require Import String Ascii List Bool ZArith Arith Lia.
 Import ListNotations.
-Require Import V.Lib.PyStr V.Lib.JTree V.Conf.Model V.Cache.Model V.Cache.Proofs.
+Require Import V.Lib.PyStr V.Lib.JTree V.Conf.Model V.Cache.Model V.Cache.Proofs V.Cache.Generated.
 Open Scope string_scope.
 
 (* Per-operation footprint (one statement for the 13 mutators): if (p, s, n) resolved to v before the mutator and
@@ -72,6 +72,73 @@ Proof.
 Qed.
 Print Assumptions C08_private.
 
+(* The same two statements for an object at ANY point of its life and for the larger alphabet: the start is any
+   state whose cache is coherent with its document (whatever document the object was constructed from and whatever
+   happened to it before), and the history may also contain in-place changes by the caller of objects it handed to
+   the mutators earlier (MutateArg), invalidate_cache_for_component (Invalidate) and writes through live references
+   to components (get_components(return_copy=False), a kept get_component(.., return_copy=False), the description
+   of add_component(.., insert_copy=False)) under the discipline [ok_hist]: the write is followed at once by
+   invalidate_cache_for_component of that component.  forallb op_ok ops = true implies ok_hist ops = true
+   (op_ok_ok_hist), so these generalise C08_coherent and C08_fresh. *)
+Theorem C08_coherent_from : forall (dflt : jv) (st0 : state) (ops : list op),
+  (forall k v, In (k, v) (s_cache st0) ->
+     exists p s n, k = key p s n /\ plat_ok p = true /\ qresolve dflt (s_doc st0) p s n = QOk v) ->
+  ok_hist ops = true ->
+  let st := fst (run lit_matches dflt st0 ops) in
+  forall k v, In (k, v) (s_cache st) ->
+    exists p s n, k = key p s n /\ plat_ok p = true /\ qresolve dflt (s_doc st) p s n = QOk v.
+Proof.
+  intros dflt st0 ops H0 Hok st k v Hin.
+  assert (Hc : coherent dflt st0).
+  { intros [k0 v0] Hi. destruct (H0 k0 v0 Hi) as (p & s & n & A & B & C). exists p, s, n. auto. }
+  exact (run_coherent_ok lit_matches dflt lit_complete (length ops) ops st0 (le_n _) Hok Hc (k, v) Hin).
+Qed.
+Print Assumptions C08_coherent_from.
+
+Theorem C08_fresh_from : forall (dflt : jv) (st0 : state) (pre post : list op) (p : string) (s : Z) (n : string),
+  (forall k v, In (k, v) (s_cache st0) ->
+     exists p s n, k = key p s n /\ plat_ok p = true /\ qresolve dflt (s_doc st0) p s n = QOk v) ->
+  ok_hist pre = true -> plat_ok p = true ->
+  nth_error (snd (run lit_matches dflt st0 (pre ++ Query p s n :: post))) (length pre)
+  = Some (ORes (qresolve dflt (doc_after (s_doc st0) pre) p s n)).
+Proof.
+  intros dflt st0 pre post p s n H0 Hok Hp.
+  assert (Hc : coherent dflt st0).
+  { intros [k0 v0] Hi. destruct (H0 k0 v0 Hi) as (p' & s' & n' & A & B & C). exists p', s', n'. auto. }
+  exact (history_fresh_ok lit_matches dflt lit_complete st0 pre p s n post Hc Hok Hp).
+Qed.
+Print Assumptions C08_fresh_from.
+
+(* Arguments are private too (after the repair: every mutator stores a copy of the value it is handed): a later
+   in-place change by the caller of an object it passed in is not an operation on the object — state and every
+   later observation are those of the history without it, and the document the queries are measured against
+   (doc_after) does not move. *)
+Theorem C08_args_private : forall (dflt : jv) (st : state) (pre post : list op) (s : Z) (n : string)
+                                  (r : list string) (x : jv) (d : doc),
+  step lit_matches dflt st (MutateArg s n r x) = (st, ODone) /\
+  doc_after d (pre ++ MutateArg s n r x :: post) = doc_after d (pre ++ post) /\
+  fst (run lit_matches dflt st (pre ++ MutateArg s n r x :: post)) = fst (run lit_matches dflt st (pre ++ post)) /\
+  snd (run lit_matches dflt st (pre ++ MutateArg s n r x :: post))
+    = (snd (run lit_matches dflt st pre) ++ ODone :: snd (run lit_matches dflt (fst (run lit_matches dflt st pre)) post))%list.
+Proof.
+  intros. split; [reflexivity|]. split.
+  - revert d. induction pre as [|o pre IH]; intros d0; cbn; [reflexivity|apply IH].
+  - exact (history_args_private lit_matches dflt st pre post s n r x).
+Qed.
+Print Assumptions C08_args_private.
+
+(* The table of built-in defaults is not an unknown: V.Cache.Generated.real_dflt is printed from
+   FlowIR.default_component_structure() of the tree under test on every run (harness/c08.py, before the proofs are
+   built) and is the table the correspondence run evaluates the model with.  Freshness for that table. *)
+Theorem C08_fresh_real : forall (st0 : state) (pre post : list op) (p : string) (s : Z) (n : string),
+  (forall k v, In (k, v) (s_cache st0) ->
+     exists p s n, k = key p s n /\ plat_ok p = true /\ qresolve real_dflt (s_doc st0) p s n = QOk v) ->
+  ok_hist pre = true -> plat_ok p = true ->
+  nth_error (snd (run lit_matches real_dflt st0 (pre ++ Query p s n :: post))) (length pre)
+  = Some (ORes (qresolve real_dflt (doc_after (s_doc st0) pre) p s n)).
+Proof. exact (C08_fresh_from real_dflt). Qed.
+Print Assumptions C08_fresh_real.
+
 (* Non-vacuity: a well-formed history on a two-platform document in which a mutator runs while the cache holds
    the entry it must drop, an entry of another component survives, and the answers before and after differ. *)
 Definition ex_comp (n : string) (s : Z) (args x : string) : jv :=
@@ -94,3 +161,24 @@ Example C08_nonvacuous :
    nth_error (snd r) 0 <> nth_error (snd r) 3 /\
    nth_error (snd r) 3 = Some (ORes (qresolve (JDict []) (doc_after ex_doc (firstn 3 ex_ops)) "p" 0 "foo"))).
 Proof. vm_compute. repeat split; congruence. Qed.
+
+(* Non-vacuity of the hypotheses of C08_coherent_from / C08_fresh_from / C08_fresh_real: a start state with a
+   non-empty coherent cache (the state the history above ends in), continued by a history of the larger alphabet
+   that satisfies ok_hist without satisfying forallb op_ok: a disciplined live write (the entry of foo is dropped,
+   the entry of bar survives), a change by the caller of an object it passed in, and answers that differ before
+   and after.  The same with the table of defaults of the running code. *)
+Definition ex_ops2 : list op :=
+  [LiveWrite 0 "foo" ["command"; "arguments"] (JStr "live %(x)s"); Invalidate 0 "foo";
+   ReplaceComp 1 "bar" (ex_comp "bar" 1 "%(x)s!" "c"); MutateArg 1 "bar" ["command"; "arguments"] (JStr "B");
+   Query "p" 0 "foo"; Query "default" 1 "bar"].
+
+Example C08_nonvacuous_from :
+  let st0 := fst (run lit_matches (JDict []) {| s_doc := ex_doc; s_cache := [] |} ex_ops) in
+  ok_hist ex_ops2 = true /\ forallb op_ok ex_ops2 = false /\
+  map fst (s_cache st0) = ["component:default:stage1:bar"; "component:p:stage0:foo"] /\
+  (let r := run lit_matches (JDict []) st0 ex_ops2 in
+   nth_error (snd r) 4 = Some (ORes (qresolve (JDict []) (doc_after (s_doc st0) (firstn 4 ex_ops2)) "p" 0 "foo")) /\
+   nth_error (snd r) 4 <> nth_error (snd (run lit_matches (JDict []) {| s_doc := ex_doc; s_cache := [] |} ex_ops)) 3) /\
+  (exists v, nth_error (snd (run lit_matches real_dflt {| s_doc := ex_doc; s_cache := [] |} (ex_ops ++ ex_ops2))) 8
+             = Some (ORes (QOk v)) /\ get_path ["command"; "arguments"] v = Some (JStr "live 2")).
+Proof. vm_compute. repeat split; try congruence. eexists. split; reflexivity. Qed.
